@@ -62,7 +62,7 @@ mpz_sqrtrem (mpz_ptr root, mpz_ptr rem, mpz_srcptr op)
 	  free_me_size = root->_mp_alloc;
 	}
       else
-	(*__gmp_free_func) (root_ptr, root->_mp_alloc * BYTES_PER_MP_LIMB);
+	(*__gmp_free_func) (root_ptr, (size_t) root->_mp_alloc * BYTES_PER_MP_LIMB);
 
       root->_mp_alloc = root_size;
       root_ptr = (mp_ptr) (*__gmp_allocate_func) (root_size * BYTES_PER_MP_LIMB);
